@@ -35,6 +35,8 @@ Seeds == { <<60,97,62,60,47,32,62,60,47,9,13,10,62,60,32,62,60,47,32,62>>,   \* 
            <<60,33,45,45,97,45,45,45,62>>, <<60,33,45,45,45,45,97,45,45,62>>,
            <<60,97,47,62,60,47,97,62,60,47,98,62>>,
            <<239,187,191,60,97,62>>,
+           <<239,187,191,32,10,60,97,47,62,32>>,       \* BOM SP LF <a/> SP   (white space directly behind the byte-order mark)
+           <<32,239,187,191,120,60,97,47,62>>,       \* SP U+FEFF x <a/>   (white space, then U+FEFF as a character of the text)
            <<60,33,68,111,99,84,121,112,101,32,97,62,60,97,47,62>>,        \* <!DocType a><a/>  (mixed-case keyword)
            \* DOCTYPE with markup nested two levels deep: <!DOCTYPE r [<!-- <!E> -->]><r/>
            <<60,33,68,79,67,84,89,80,69,32,114,32,91,60,33,45,45,32,60,33,69,62,32,45,45,62,93,62,60,114,47,62>> }
